@@ -218,4 +218,109 @@ def scalarOps {α : Type} [Add α] [Mul α] [Div α] : VecOps α α :=
 def listOps {α : Type} [Add α] [Mul α] [Div α] : VecOps α (List α) :=
   { add := List.zipWith (· + ·), smul := fun a v => v.map (fun y => y * a), sdiv := fun v a => v.map (· / a) }
 
+/-! ## Part 4: who owns the stage derivatives
+
+`DESolver._getdXdt` (Solver.py 132-141) hands the iterator `self._flattenX(dXdt)`.  A model may
+evaluate its right-hand side into ONE work array that it owns and returns on every call (nothing
+in `GenericModel.getdXdt` forbids it).  Whether the iterator then holds private values or the
+model's work array depends on the flatten function: `np.hstack` / `np.concatenate` allocate
+(`shared = false`), the identity default of a bare DESolver and a `np.reshape` view do not
+(`shared = true`).  With a shared array a stage derivative that is read AFTER a later call of the
+right-hand side has the value of that later call.  `rk4IterBuf` is `RK4Iterator` (Iterators.py
+66-83) with every read of k1..k4 resolved accordingly; the reads are where the code has them:
+`updateX(X_old, k1, dt/2)` before call 2, `k1 + 2*k2` after call 2, `updateX(X_old, k2, dt/2)`
+before call 3, `+= 2*k3` after call 3, `+= k4` after call 4. -/
+
+section buf
+variable {α V : Type} [Add α] [Mul α] [Div α]
+
+/-- value read from a stage derivative: its own value when the iterator holds a private array,
+the work array's current content when it holds the model's array -/
+def readK (shared : Bool) (own current : V) : V := if shared then current else own
+
+/-- RK4Iterator when the right-hand side returns one reused work array -/
+def rk4IterBuf [OfNat α 2] [OfNat α 6] (shared : Bool) (o : VecOps α V) (f : α → V → V) (dt t : α) (x : V) :
+    IterOut α V :=
+  let k1 := f t x
+  let xk1 := updateX o x k1 (dt / 2)                         -- work array holds k1
+  let k2 := f (t + dt / 2) xk1                               -- work array now holds k2
+  let sum2 := o.add (readK shared k1 k2) (o.smul 2 k2)       -- `dxdtsum = k1 + 2*k2`
+  let xk2 := updateX o x k2 (dt / 2)
+  let k3 := f (t + dt / 2) xk2                               -- work array now holds k3
+  let sum3 := o.add sum2 (o.smul 2 k3)                       -- `dxdtsum += 2*k3` (dxdtsum is a new array)
+  let xk3 := updateX o x k3 dt
+  let k4 := f (t + dt) xk3
+  let sum := o.add sum3 k4
+  { xnew := updateX o x (o.sdiv sum 6) dt,
+    calls := [(t, x), (t + dt / 2, xk1), (t + dt / 2, xk2), (t + dt, xk3)],
+    xold := x }
+
+/-- ExplicitEulerIterator: the single derivative is consumed before any other call -/
+def eulerIterBuf (_shared : Bool) (o : VecOps α V) (f : α → V → V) (dt t : α) (x : V) : IterOut α V :=
+  eulerIter o f dt t x
+
+end buf
+
+/-! ## Part 5: number formats of the step proposal and of the clock
+
+`getDt` may answer in any number format (Python float, np.float64, np.float32, np.float16, a 0-d
+array, an int).  Solver.py 134-139 clamps the proposal and returns `float(dt)`: the VALUE the model
+proposed — a number of the coarser format — as a double.  So a format enters a run only as a
+rounding function `rnd` applied to the proposal (`stepDtR`); the clock, the remaining time, the
+stage times and the state update all use that one double.  `stepXC` is the variant in which the
+clock itself is kept in a coarser format (`rndc` applied to `currTime + dt`: what
+`currTime += np.float32(dt)` does under NumPy-2 promotion) while the state is advanced with dt. -/
+
+section fmt
+variable {α V : Type}
+
+/-- a number format acting on a proposal: finite values are rounded, inf/NaN stay -/
+def Dt.map (g : α → α) : Dt α → Dt α
+  | .fin x => .fin (g x)
+  | .posInf => .posInf
+  | .negInf => .negInf
+  | .nan => .nan
+
+variable [Add α] [Sub α] [Mul α] [LT α] [DecidableLT α]
+
+/-- the model's proposal function when `getDt` answers in the format `rnd` -/
+def proposeR (rnd : α → α) (propose : List α → Dt α) : List α → Dt α := fun h => (propose h).map rnd
+
+/-- the step of one pass: clamp of the rounded proposal -/
+def stepDtR (rnd : α → α) (tf dtmin : α) (propose : List α → Dt α) (s : St α) : α :=
+  stepDt tf dtmin (proposeR rnd propose) s
+
+/-- one pass of the loop with the state, proposal in format `rnd` -/
+def stepXR (rnd : α → α) (tf dtmin : α) (propose : List α → Dt α) (stopAt : List α → Bool)
+    (iter : α → α → V → V) (s : St α × V) : St α × V :=
+  stepX tf dtmin (proposeR rnd propose) stopAt iter s
+
+def runXR (rnd : α → α) (tf dtmin : α) (propose : List α → Dt α) (stopAt : List α → Bool)
+    (iter : α → α → V → V) (n : Nat) (s : St α × V) : St α × V :=
+  runX tf dtmin (proposeR rnd propose) stopAt iter n s
+
+/-- `DESolver.solve` for a model that answers `getDt` in the format `rnd` -/
+def solveXR (rnd : α → α) (t0 tf minFrac maxFrac : α) (propose : List α → Dt α) (stopAt : List α → Bool)
+    (iter : α → α → V → V) (x0 : V) (fuel : Nat) : St α × V :=
+  solveX t0 tf minFrac maxFrac (proposeR rnd propose) stopAt iter x0 fuel
+
+/-- NOT the code: one pass in which the clock is stored in a coarser format (`rndc`), the state is
+advanced with the step dt -/
+def stepXC (rndc : α → α) (tf dtmin : α) (propose : List α → Dt α) (stopAt : List α → Bool)
+    (iter : α → α → V → V) (s : St α × V) : St α × V :=
+  let s1 := step tf dtmin propose stopAt s.1
+  ({ s1 with cur := rndc s1.cur }, iter (stepDt tf dtmin propose s.1) s.1.cur s.2)
+
+def runXC (rndc : α → α) (tf dtmin : α) (propose : List α → Dt α) (stopAt : List α → Bool)
+    (iter : α → α → V → V) : Nat → St α × V → St α × V
+  | 0, s => s
+  | n+1, s => if s.1.cur < tf ∧ s.1.stop = false
+      then runXC rndc tf dtmin propose stopAt iter n (stepXC rndc tf dtmin propose stopAt iter s) else s
+
+def solveXC (rndc : α → α) (t0 tf minFrac maxFrac : α) (propose : List α → Dt α) (stopAt : List α → Bool)
+    (iter : α → α → V → V) (x0 : V) (fuel : Nat) : St α × V :=
+  runXC rndc tf (minFrac * (tf - t0)) propose stopAt iter fuel (initSt t0 tf maxFrac, x0)
+
+end fmt
+
 end KawinV.Solver
